@@ -1,6 +1,7 @@
 package c19
 
 import (
+	"bytes"
 	"errors"
 	"fmt"
 	"io"
@@ -41,6 +42,10 @@ func (b bodySpec) length() int64 {
 
 // read copies the bytes from offset off into p and returns how many there were (0 at the end of the body).
 func (b bodySpec) read(p []byte, off int64) int {
+	if l := len(b.fill); l > 0 && l < 1024 && len(p) > 4*l {
+		// copy the fill in pieces of a few KiB, not of a few bytes (a whole number of repetitions: the content at every offset stays the same)
+		b.fill = bytes.Repeat(b.fill, 2048/l+1)
+	}
 	n := 0
 	for n < len(p) {
 		o := off + int64(n)
